@@ -123,9 +123,10 @@ def run_one(case, P, do_int, roundtrip=True):
     import warnings
 
     import numpy as np
-    from bldfm.pbl_model import vertical_profiles
-    from vlib import gen
+    from bldfm import pbl_model as _pm
+    from vlib import gen, purity
 
+    vertical_profiles = purity.guarded(_pm.vertical_profiles, "vertical_profiles")
     viol = []
     resid = {}
     counters = {"vertical_profiles_calls": 0, "roundtrips": 0}
@@ -165,8 +166,15 @@ def run_one(case, P, do_int, roundtrip=True):
     with warnings.catch_warnings():
         warnings.simplefilter("ignore")
         with np.errstate(all="ignore"):
-            z, (u, v, Kx, Ky, Kz) = vertical_profiles(n, zm, (um, vm), **kw)
+            # the wind vector as a tuple, a list or the caller's own float64 array (kept and compared afterwards)
+            wform = ["tuple", "ndarray", "list", "ndarray_view"][case["idx"] % 4]
+            wind_arg = {"tuple": (um, vm), "list": [um, vm], "ndarray": np.array([um, vm]),
+                        "ndarray_view": np.array([um, 0.0, vm, 0.0])[::2]}[wform]
+            z, (u, v, Kx, Ky, Kz) = vertical_profiles(n, zm, wind_arg, **kw)
     counters["vertical_profiles_calls"] += 1
+    if not (float(wind_arg[0]) == um and float(wind_arg[1]) == vm):
+        viol.append(dict(what="wind_argument_modified_by_the_call", form=wform, before=(um, vm), after=(float(wind_arg[0]), float(wind_arg[1])),
+                         closure=closure))
     z, u, v, Kx, Ky, Kz = [np.asarray(a, dtype=float) for a in (z, u, v, Kx, Ky, Kz)]
     ctx = dict(closure=closure, n=n, zm=zm, wind=(um, vm), forcing=forcing, ustar=ustar, z0=z0, L=L, prsc=prsc, tke=tke, grid=gridp,
                domain_height=kw.get("domain_height"), stretch=kw.get("stretch"))
